@@ -8,21 +8,24 @@ HEAD plus a worktree of /verif's HEAD whose harness crates point at the lab's re
 official pass given in out/official_pass.json for seeds run there)."""
 import subprocess, json, os, sys, time, threading, re
 K = int(sys.argv[1]); only = sys.argv[2:]
+DEADLINE = time.time() + 60 * float(os.environ.get("LAB_PASS_MINUTES", "600"))  # no new seed is started after this
 names = sorted(n for n in os.listdir("/verif/seeded") if os.path.isdir(os.path.join("/verif/seeded", n)))
 if only:
     names = [n for n in names if any(n.startswith(o) for o in only)]
 labs = [f"/tmp/fin{i+1}" for i in range(K)]
-env = dict(os.environ, VERIF_NCPU=os.environ.get("VERIF_NCPU", "4"))
+# VERIF_NO_ESCALATE=1: the thorough-depth case generation that check.py switches to when an anchored source file differs
+# from its fingerprint is switched off here for time; the pass is therefore, if anything, weaker than the prescribed run
+env = dict(os.environ, VERIF_NCPU=os.environ.get("VERIF_NCPU", "4"), VERIF_NO_ESCALATE="1")
 rows, lock = {}, threading.Lock()
 # longest checks first so the labs finish together
-queue = sorted(names, key=lambda n: -{"C03": 9, "C04": 8, "C08": 7, "C17": 7, "C11": 6, "C09": 5, "C16": 5}.get(n[:3], 1))
+queue = sorted(names, key=lambda n: (0 if "-r3mut" in n else 1 if "-r2mut" in n else 2, n[:3] in ("C03",), n))
 
 
 def worker(lab):
     e = dict(env, LAB=lab)
     while True:
         with lock:
-            if not queue:
+            if not queue or time.time() > DEADLINE:
                 return
             n = queue.pop(0)
         meta = json.load(open(f"/verif/seeded/{n}/meta.json")); prop = meta["property"]
@@ -50,15 +53,30 @@ def worker(lab):
 ths = [threading.Thread(target=worker, args=(l,)) for l in labs]
 [t.start() for t in ths]; [t.join() for t in ths]
 allrows = [rows[n] for n in names if n in rows]
+notrun = [n for n in names if n not in rows]
 with open("/verif/seeded/RESULTS.md", "w") as f:
-    f.write("# Seeded changes: final pass\n\nProcedure per seed (tools/lab_pass.py): in one of %d private lab copies made from the final commits "
+    f.write("# Seeded changes: final pass (round 3)\n\nProcedure per seed (tools/lab_pass.py): in one of %d private lab copies made from the final commits "
             "(a worktree of /repo's HEAD and a worktree of /verif's HEAD whose harness crates point at the lab's repo): "
-            "`git -C <lab>/repo apply seeded/<name>/patch.diff`; `DASP_REPO=<lab>/repo ./check.py <property> --tier quick`; "
-            "`git -C <lab>/repo checkout -- .`. The copies exist only so that 180 runs fit the time available; the seeds listed in "
-            "`seeded/RESULTS_on_repo.md` were additionally run the prescribed way on /repo itself (tools/official_pass.py). "
-            "DETECTED = exit code 1 with a VIOLATION line.\n\n| seed | property | result | replay kind | seconds |\n|---|---|---|---|---|\n" % K)
-    for n, p, res, k, s in allrows:
-        f.write(f"| {n} | {p} | {res} | {k} | {s} |\n")
+            "`git -C <lab>/repo apply seeded/<name>/patch.diff`; `DASP_REPO=<lab>/repo VERIF_NO_ESCALATE=1 ./check.py <property> --tier quick`; "
+            "`git -C <lab>/repo checkout -- .`. The copies exist only so that the runs fit the time available; `VERIF_NO_ESCALATE=1` switches off "
+            "the escalation to thorough-depth case generation that the plain command performs when an anchored source file has changed, so this pass "
+            "is if anything weaker than the prescribed one. Seeds run the prescribed way on /repo itself are in `seeded/RESULTS_on_repo.md` "
+            "(tools/official_pass.py). Order: round-3 seeds first, then round 2, then round 1; seeds the time did not reach are listed at the end with "
+            "the result of the previous final pass (made on /repo at /verif 1cc8ed6, before round 3). DETECTED = exit code 1 with a VIOLATION line.\n\n"
+            "| seed | property | result | replay kind | seconds |\n|---|---|---|---|---|\n" % K)
+    for n, p, res, k, sec in allrows:
+        f.write(f"| {n} | {p} | {res} | {k} | {sec} |\n")
     det = sum(1 for r in allrows if r[2] == "DETECTED")
-    f.write(f"\n{det} of {len(allrows)} detected.\n")
-print("done", sum(1 for r in allrows if r[2] == "DETECTED"), "/", len(allrows))
+    f.write(f"\n{det} of {len(allrows)} detected in this pass.\n")
+    if notrun:
+        old = {}
+        if os.path.exists("/tmp/old_results.md"):
+            for l in open("/tmp/old_results.md"):
+                c = [x.strip() for x in l.split("|")]
+                if len(c) > 4 and c[1].startswith("C"):
+                    old[c[1]] = (c[3], c[4])
+        f.write("\n## Not re-run in this pass (previous final pass on /repo, before round 3)\n\n| seed | result then | replay kind then |\n|---|---|---|\n")
+        for n in notrun:
+            r = old.get(n, ("not run", ""))
+            f.write(f"| {n} | {r[0]} | {r[1]} |\n")
+print("done", sum(1 for r in allrows if r[2] == "DETECTED"), "/", len(allrows), "not run:", len(notrun))
